@@ -23,5 +23,5 @@ D2 == {Share(Case("D2", "wrapped", <<F("a", Prim("Integer"), 0, 1)>>, <<Leaf("5"
           e \in {Pv("1", "2"), Pv("3", "4")}, via \in {Nil, SeqV(<<Pv("1", "2"), Pv("3", "4"), Pv("1", "2")>>), SeqV(<<Pv("3", "4"), Pv("3", "4")>>)}, sh \in BOOLEAN}
       \cup {Share(Case("D2", "wrapped", <<F("a", Prim("Integer"), 0, 1)>>, <<Leaf("5")>>, <<Arr(P2)>>, <<SeqV(<<Pv("1", "2"), Pv("3", "4"), Pv("1", "2")>>)>>), sh) : sh \in BOOLEAN}
 \* (bare styles and SOAP headers have no counterpart in dict documents)
-DictCases == {Share(c, FALSE) : c \in T1 \cup T2 \cup T3 \cup T4 \cup T5 \cup T6 \cup T7 \cup D1} \cup D2
+DictCases == {Share(c, FALSE) : c \in T1 \cup T2 \cup T3 \cup T4 \cup T5 \cup T6 \cup T6b \cup T7 \cup D1} \cup D2
 =============================================================================
